@@ -385,3 +385,267 @@ theorem reverse_slice (len : Nat) : sliceIdx len none none (-1) = (List.range le
   exact rangeI_down len (len + 1) (by omega)
 
 end C07
+
+/-! ### the list reading of every selection: slices are drop/take, masks are filters, fancy indexing reads `l[pos[k]]`, assignment then selection reads back -/
+namespace C07
+open Base Py
+
+/-- `normIdx` is Python's index rule -/
+theorem normIdx_spec (len : Nat) (i : Int) (p : Nat) :
+    normIdx len i = some p ↔ ((0 ≤ i ∧ i < len ∧ (p : Int) = i) ∨ (i < 0 ∧ -(len : Int) ≤ i ∧ (p : Int) = len + i)) := by
+  unfold normIdx
+  split
+  · split
+    · simp only [Option.some.injEq]; omega
+    · simp only [reduceCtorEq, false_iff]; omega
+  · split
+    · simp only [Option.some.injEq]; omega
+    · simp only [reduceCtorEq, false_iff]; omega
+
+/-- ascending unit-step range -/
+theorem rangeI_one (s : Nat) : ∀ (n fuel : Nat), n ≤ fuel →
+    rangeI (s : Int) ((s + n : Nat) : Int) 1 fuel = List.range' s n := by
+  intro n
+  induction n generalizing s with
+  | zero => intro fuel _; cases fuel <;> simp [rangeI]
+  | succ n ih =>
+    intro fuel hf
+    cases fuel with
+    | zero => omega
+    | succ fuel =>
+      unfold rangeI
+      have hc : ((0 : Int) < 1 ∧ (s : Int) < ((s + (n + 1) : Nat) : Int)) ∨ ((1 : Int) < 0 ∧ (s : Int) > ((s + (n + 1) : Nat) : Int)) :=
+        Or.inl ⟨by omega, by omega⟩
+      simp only [hc, ↓reduceIte, Int.toNat_natCast]
+      have h1 : (s : Int) + 1 = ((s + 1 : Nat) : Int) := by omega
+      have h2 : ((s + (n + 1) : Nat) : Int) = ((s + 1 + n : Nat) : Int) := by omega
+      rw [h1, h2, ih (s + 1) fuel (by omega)]
+      simp [List.range'_succ]
+
+theorem rangeI_empty (s e : Int) (h : e ≤ s) (fuel : Nat) : rangeI s e 1 fuel = [] := by
+  cases fuel with
+  | zero => rfl
+  | succ f =>
+    unfold rangeI
+    have hc : ¬ (((0 : Int) < 1 ∧ s < e) ∨ ((1 : Int) < 0 ∧ s > e)) := by omega
+    rw [if_neg hc]
+
+theorem pick_range' {α} (l : List α) (s n : Nat) (h : s + n ≤ l.length) :
+    pick l (List.range' s n) = some ((l.drop s).take n) := by
+  unfold pick
+  induction n generalizing s with
+  | zero => simp
+  | succ n ih =>
+    rw [List.range'_succ]
+    simp only [omap]
+    rw [ih (s + 1) (by omega)]
+    have hs : s < l.length := by omega
+    rw [List.getElem?_eq_getElem hs]
+    rw [List.drop_eq_getElem_cons hs, List.take_succ_cons]
+end C07
+
+namespace C07
+open Base Py
+
+/-- **C07.slice_take_drop** — a unit-step slice `l[a:b]` is `drop`/`take` between the clamped bounds
+(CPython's adjustment of negative and out-of-range bounds), for every `a`, `b` (present or omitted). -/
+theorem slice_take_drop {α} (l : List α) (a b : Option Int) :
+    pick l (sliceIdx l.length a b 1) =
+      some ((l.drop (sliceBounds l.length a b 1).1.toNat).take
+        ((sliceBounds l.length a b 1).2 - (sliceBounds l.length a b 1).1).toNat) := by
+  have hb := (sliceBounds_range l.length a b 1).1 (by omega)
+  unfold sliceIdx
+  obtain ⟨se, hse⟩ : ∃ se, se = sliceBounds l.length a b 1 := ⟨_, rfl⟩
+  rw [← hse] at hb ⊢
+  obtain ⟨s, e⟩ := se
+  simp only at hb ⊢
+  by_cases hle : e ≤ s
+  · rw [rangeI_empty s e hle]
+    have : (e - s).toNat = 0 := by omega
+    rw [this]; simp [pick]
+  · obtain ⟨sn, hsn⟩ : ∃ sn : Nat, s = sn := ⟨s.toNat, by omega⟩
+    obtain ⟨n, hn⟩ : ∃ n : Nat, e = ((sn + n : Nat) : Int) := ⟨(e - s).toNat, by omega⟩
+    subst hsn; subst hn
+    rw [rangeI_one sn n (l.length + 1) (by omega)]
+    have h1 : ((sn : Int)).toNat = sn := by omega
+    have h2 : (((sn + n : Nat) : Int) - (sn : Int)).toNat = n := by omega
+    rw [h1, h2]
+    exact pick_range' l sn n (by omega)
+
+/-- `l[:]` is `l` -/
+theorem slice_full {α} (l : List α) : pick l (sliceIdx l.length none none 1) = some l := by
+  rw [slice_take_drop]
+  simp [sliceBounds]
+
+theorem pick_length {α} (l : List α) (pos : List Nat) (r : List α) (h : pick l pos = some r) :
+    r.length = pos.length := omap_length _ pos r h
+
+/-- fancy indexing reads element `pos[k]` into place `k` -/
+theorem pick_getElem {α} (l : List α) : ∀ (pos : List Nat) (r : List α), pick l pos = some r →
+    ∀ k, k < pos.length → r[k]? = l[pos[k]!]? := by
+  intro pos
+  induction pos with
+  | nil => intro r _ k hk; simp at hk
+  | cons p ps ih =>
+    intro r h k hk
+    obtain ⟨b, bs, hb, hbs, rfl⟩ := omap_cons_eq_some _ p ps r h
+    cases k with
+    | zero => simp [hb]
+    | succ k =>
+      simp only [List.getElem?_cons_succ, List.getElem!_cons_succ]
+      exact ih bs hbs k (by simpa using hk)
+
+/-- it raises exactly when a position is out of range -/
+theorem pick_isSome_iff {α} (l : List α) (pos : List Nat) :
+    (pick l pos).isSome ↔ ∀ p ∈ pos, p < l.length := by
+  unfold pick
+  rw [omap_isSome_iff]
+  constructor
+  · intro h p hp
+    have := h p hp
+    rcases Nat.lt_or_ge p l.length with hlt | hge
+    · exact hlt
+    · rw [List.getElem?_eq_none hge] at this; simp at this
+  · intro h p hp
+    rw [List.getElem?_eq_getElem (h p hp)]; rfl
+
+theorem pick_range {α} (l : List α) : pick l (List.range l.length) = some l := by
+  have := pick_range' l 0 l.length (by omega)
+  rw [List.range_eq_range']
+  simpa using this
+
+theorem omap_reverse {α β} (f : α → Option β) (l : List α) :
+    omap f l.reverse = (omap f l).map List.reverse := by
+  induction l with
+  | nil => rfl
+  | cons x xs ih =>
+    rw [List.reverse_cons, omap_append, ih]
+    simp only [omap]
+    cases f x <;> cases omap f xs <;> simp
+
+/-- `l[::-1]` is `l.reverse` -/
+theorem slice_reverse {α} (l : List α) : pick l (sliceIdx l.length none none (-1)) = some l.reverse := by
+  rw [reverse_slice]
+  unfold pick
+  rw [omap_reverse]
+  have := pick_range l
+  unfold pick at this
+  rw [this]; rfl
+
+/-- **C07.reverse_involutive** — reversing twice (`v[::-1][::-1]`, rows of a ragged array or elements
+of a flat one) gives back the operand. -/
+theorem reverse_involutive {α} (v : Val α) (hv : ∀ c, v ≠ .scalar c) :
+    run v [.index (.slice none none (-1)), .index (.slice none none (-1))] = some v := by
+  have hs : ((-1 : Int) = 0) = False := by simp
+  cases v with
+  | scalar c => exact absurd rfl (hv c)
+  | flat l =>
+    simp only [run, apply, Idx.resolve, hs, ↓reduceIte, Option.bind_some, slice_reverse, Option.map_some]
+    have := slice_reverse l.reverse
+    rw [List.length_reverse] at this
+    simp [this]
+  | rag r =>
+    simp only [run, apply, Idx.resolve, hs, ↓reduceIte, Option.bind_some, slice_reverse, Option.map_some]
+    have := slice_reverse r.reverse
+    rw [List.length_reverse] at this
+    simp [this]
+
+/-- `r[:, ::-1]` reverses every row -/
+theorem colSlice_reverse {α} (r : List (List α)) :
+    apply (.rag r) (.colSlice none none (-1)) = some (.rag (r.map List.reverse)) := by
+  have hs : ((-1 : Int) = 0) = False := by simp
+  simp only [apply, hs, ↓reduceIte]
+  rw [omap_some_map (sliceRow none none (-1)) List.reverse r (fun row _ => slice_reverse row)]
+  rfl
+
+/-! ### item assignment -/
+
+theorem scatter_length {α} : ∀ (pos : List Nat) (l vs : List α), (scatter l pos vs).length = l.length := by
+  intro pos
+  induction pos with
+  | nil => intro l vs; simp [scatter]
+  | cons p ps ih =>
+    intro l vs
+    cases vs with
+    | nil => simp [scatter]
+    | cons v vs => simp [scatter, ih]
+
+/-- positions that are not assigned keep their value -/
+theorem scatter_other {α} (q : Nat) : ∀ (pos : List Nat) (l vs : List α), q ∉ pos →
+    (scatter l pos vs)[q]? = l[q]? := by
+  intro pos
+  induction pos with
+  | nil => intro l vs _; simp [scatter]
+  | cons p ps ih =>
+    intro l vs hq
+    cases vs with
+    | nil => simp [scatter]
+    | cons v vs =>
+      simp only [scatter]
+      rw [ih (l.set p v) vs (fun h => hq (List.mem_cons_of_mem _ h))]
+      have : p ≠ q := fun h => hq (by simp [h])
+      simp [List.getElem?_set_ne this]
+
+/-- **C07.scatter_get** — after `f[ix] = v` (distinct in-range positions), `f[ix]` is `v`: assignment
+followed by the same selection reads back the assigned characters. -/
+theorem scatter_get {α} : ∀ (pos : List Nat) (l vs : List α), pos.Nodup → (∀ p ∈ pos, p < l.length) →
+    vs.length = pos.length → pick (scatter l pos vs) pos = some vs := by
+  intro pos
+  induction pos with
+  | nil => intro l vs _ _ hl; cases vs with
+    | nil => rfl
+    | cons _ _ => simp at hl
+  | cons p ps ih =>
+    intro l vs hnd hin hl
+    cases vs with
+    | nil => simp at hl
+    | cons v vs =>
+      have hnd' := List.nodup_cons.mp hnd
+      simp only [scatter]
+      apply omap_cons_some
+      · rw [scatter_other p ps (l.set p v) vs hnd'.1]
+        simp [hin p (by simp)]
+      · have := ih (l.set p v) vs hnd'.2 (fun q hq => by simpa using hin q (by simp [hq])) (by simpa using hl)
+        exact this
+
+/-! ### boolean masks -/
+
+theorem pick_mask_aux {α} : ∀ (m : List Bool) (pre rest : List α), m.length = rest.length →
+    pick (pre ++ rest) (maskPositions pre.length m) = some (((rest.zip m).filter (·.2)).map (·.1)) := by
+  intro m
+  induction m with
+  | nil => intro pre rest h; cases rest with
+    | nil => rfl
+    | cons _ _ => simp at h
+  | cons b bs ih =>
+    intro pre rest h
+    cases rest with
+    | nil => simp at h
+    | cons x xs =>
+      have hrec := ih (pre ++ [x]) xs (by simpa using h)
+      simp only [List.length_append, List.length_singleton, List.append_assoc, List.singleton_append] at hrec
+      cases b with
+      | false => simpa [maskPositions] using hrec
+      | true =>
+        simp only [maskPositions, ↓reduceIte, List.zip_cons_cons, List.filter_cons_of_pos, List.map_cons]
+        unfold pick at hrec ⊢
+        apply omap_cons_some _ _ _ _ _ _ hrec
+        simp
+
+/-- **C07.mask_filter** — boolean-mask indexing `l[m]` keeps exactly the elements whose mask entry is
+true, in order (`[x for x, b in zip(l, m) if b]`). -/
+theorem mask_filter {α} (l : List α) (m : List Bool) (h : m.length = l.length) :
+    pick l (maskPositions 0 m) = some (((l.zip m).filter (·.2)).map (·.1)) := by
+  simpa using pick_mask_aux m [] l h
+
+/-- concatenation then ravel is ravel then concatenation -/
+theorem ravel_concat {α} (r q : List (List α)) :
+    run (.rag r) [.concat (.rag q), .ravel] = run (.flat r.flatten) [.concat (.flat q.flatten)] := by
+  simp [run, apply]
+
+/-- `np.append(f, v)` is `np.insert(f, len(f), v)` -/
+theorem append_insert {α} (l v : List α) :
+    apply (.flat l) (.append v) = apply (.flat l) (.insert l.length v) := by
+  simp [apply, insertPos]
+
+end C07
